@@ -41,7 +41,7 @@ def c04_projects(quick: bool, rng: random.Random) -> List[Dict[str, Any]]:
     ps += list(families.t_c04_pkginit())
     ps += list(families.t_c04_class_members()) + list(families.t_c04_generations())
     ps += list(families.t8_prefix_roots()) + list(families.t14_two_roots_facade())
-    ps += [p for p in families.t3_reexport() if p["meta"].get("idiom") in ("moved-module", "module-alias-handed-on", "names-inside-moved-class", "names-inside-twice-moved-class", "moved-module-with-relative-imports", "reexporter-renamed-by-its-package")
+    ps += [p for p in families.t3_reexport() if p["meta"].get("idiom") in ("moved-module", "module-alias-handed-on", "names-inside-moved-class", "names-inside-twice-moved-class", "package-moved-to-another-depth", "moved-module-with-relative-imports", "reexporter-renamed-by-its-package")
            or (p["meta"].get("form") == "plain" and p["meta"].get("consumers") in (["o"], ["o2"], ["o", "r"]))]
     ps += list(families.t1_base_chains())[:: (6 if quick else 1)] + list(families.t6_nested_packages())
     ps += list(families.t15_rebinding()) + list(families.t_c04_cycles()) + list(families.t17_how_all_is_written())
